@@ -30,6 +30,11 @@ META = {"engine": "E2 role pipeline BFS + E1 tamperings",
 for _m, _n in ((1, 12), (2, 16), (1, 20), (3, 9)):
     PC.register(f"tr-multi_a-{_m}-{_n}", lambda _m=_m, _n=_n: "tr(%s,multi_a(%d,%s))" % (PC.NUMS, _m, ",".join(PC.key(0 if j < _m else 1, 86, 30 + j) for j in range(_n))), "tap")
 WIDE = [f"tr-multi_a-{_m}-{_n}" for _m, _n in ((1, 12), (2, 16), (1, 20), (3, 9))]
+# witness scripts past 520 bytes (BIP141 bounds the witness script at 10 000, the other elements at 520): 16-key multisigs
+PC.register("wsh-multi-2-16", lambda: "wsh(multi(2,%s))" % ",".join(PC.key(0, 48, 60 + j) for j in range(16)), "v0")
+PC.register("sh-wsh-sortedmulti-2-16", lambda: "sh(wsh(sortedmulti(2,%s)))" % ",".join(PC.key(0, 48, 80 + j) for j in range(16)), "v0")
+PC.register("wsh-multi-16-16", lambda: "wsh(multi(16,%s))" % ",".join(PC.key(0, 48, 100 + j) for j in range(16)), "v0")
+WIDE += ["wsh-multi-2-16", "sh-wsh-sortedmulti-2-16", "wsh-multi-16-16"]
 
 
 def committed_by(cls, ht, i, field, j, n_in):
@@ -92,7 +97,7 @@ def _pipeline_shard(combos):
             st.transitions += 5
             if len(mix) > 1 or (ht not in (None, 1)) or any(k.startswith(("tr-l", "tr-m", "tr-t", "wsh-o", "wsh-a")) for k in mix):
                 st.nontrivial += 1
-            native = all(k not in ("pkh", "multi-bare", "sh-multi", "sh-wpkh", "sh-wsh-sortedmulti") for k in mix)  # empty script_sig
+            native = all(k not in ("pkh", "multi-bare", "sh-multi", "sh-wpkh", "sh-wsh-sortedmulti", "sh-wsh-sortedmulti-2-16") for k in mix)  # empty script_sig
             if final.tx.id != txid0 or signed.tx.id != txid0 or (native and tx.id != txid0):
                 st.violation("C10/txid-changed-by-roles", case, tx.id.hex()[:16], txid0.hex()[:16])
             try:
@@ -163,7 +168,7 @@ def _combos(ctx):
                         for order in orders:
                             out.append(((k,), hname, v2, version, lock, seq, order, serving, None))
         for k in WIDE:
-            for hname in ("DEFAULT", "ALL", "SINGLE|ACP"):
+            for hname in (("DEFAULT", "ALL", "SINGLE|ACP") if PC.digest_class(k) == "tap" else ("ALL", "SINGLE|ACP")):
                 for v2 in (False, True):
                     out.append(((k,), hname, v2, 2, 0, 5, (0, 1), serving, None))
         # pairs: every unordered pair in both orders, one representative per hash type
